@@ -864,6 +864,14 @@ def w8(proj, rep, modules):
                 bad = c
                 break
         if bad is None:
+            # exp(-1j*angle(x)) of a parameter-derived value is the same gauge fixing written with the phase angle
+            for c in ast.walk(fi.node):
+                if isinstance(c, ast.Call) and ast.unparse(c.func).split('.')[-1] == 'angle' and c.args and tainted(c.args[0], dep) and not isinstance(_stmt(c), ast.Assert):
+                    bad = ast.BinOp(left=c, op=ast.Div(), right=c)
+                    ast.copy_location(bad, c)
+                    bad._angle = c
+                    break
+        if bad is None:
             # the complex sign x/|x| (or conj(x)/|x|) is a saturating function too: a gauge fixing that removes a phase coordinate
             for b in ast.walk(fi.node):
                 if isinstance(b, ast.BinOp) and isinstance(b.op, ast.Div) and isinstance(b.right, ast.Call) and ast.unparse(b.right.func).split('.')[-1] in ('abs', 'absolute') \
@@ -875,7 +883,10 @@ def w8(proj, rep, modules):
         if bad is not None:
             why = 'divides a parameter-derived value by its own modulus (gauge fixing): the map no longer depends on that phase / sign coordinate' if isinstance(bad, ast.BinOp) \
                 else 'saturates a value derived from the parameter: outside the box the map does not depend on that coordinate'
-            rep.violation('W8', fi.qual, f'`{ast.unparse(bad)[:70]}` {why} (zero Jacobian column)', m, bad)
+            shown = getattr(bad, '_angle', bad)
+            if hasattr(bad, '_angle'):
+                why = 'takes the phase angle of a parameter-derived value (used to rotate that phase away): the map no longer depends on that phase coordinate'
+            rep.violation('W8', fi.qual, f'`{ast.unparse(shown)[:70]}` {why} (zero Jacobian column)', m, shown)
         else:
             rep.ok('W8', fi.qual, 'no saturating function on the parameter path', m, fi.node, text=f'{fi.qual} saturation')
     rep.count('W8.forward_maps', n)
@@ -2917,4 +2928,97 @@ def sd1(proj, rep, modules=None):
                     rep.violation('SD1', fi.qual, f'`{ast.unparse(b)[:70]}`: the denominator is the pairwise difference of one array with itself: 0/0 for repeated entries '
                                   f'(degenerate spectra)', m, b)
     rep.count('SD1.pairwise_difference_quotients', n)
+    return n
+
+
+# ------------------------------------------------------------------------------------------------ W10 / W11 / HM5 (+ W8 angle)
+RULE_W10 = ('W10: the Cayley chart returns C^order: written as a power, `matrix_power(C, order)`; written as a loop, `ret = C` followed by `order - 1` multiplications. '
+            '`matrix_power(C, order - 1)` is the identity for order = 1: a constant map (Jacobian rank 0).')
+RULE_W11 = ('W11: when a dense parameter matrix is split into `triu(theta, a)` and `tril(theta, b)` every entry belongs to one of the two parts: a <= b + 1. '
+            '`triu(theta, 1)` with `tril(theta, -1)` drops the diagonal: d parameters never reach the output (rank d^2 - d instead of d^2).')
+RULE_HM5 = ('HM5: in the entanglement criteria a density-matrix argument (rho / dm) is Hermitised with the CONJUGATE transpose. `(rho + rho.transpose(0,2,1))/2` is '
+            'Re(rho): still a state, but a different one for every complex-valued input, so the criterion is evaluated on the wrong state.')
+
+
+def w10_w11(proj, rep):
+    rep.rule('W10', RULE_W10)
+    rep.rule('W11', RULE_W11)
+    n = 0
+    fi = proj.func('numqi.manifold._internal.to_special_orthogonal_cayley')
+    m = fi.module
+    rep.touch(m)
+    pw = [c for c in ast.walk(fi.node) if isinstance(c, ast.Call) and ast.unparse(c.func).endswith('matrix_power') and len(c.args) == 2]
+    loops = [lp for lp in ast.walk(fi.node) if isinstance(lp, ast.For) and isinstance(lp.iter, ast.Call) and ast.unparse(lp.iter.func) == 'range']
+    for c in pw:
+        n += 1
+        if ast.unparse(c.args[1]).replace(' ', '') == 'order':
+            rep.ok('W10', fi.qual, f'`{ast.unparse(c)[:50]}`', m, c)
+        else:
+            rep.violation('W10', fi.qual, f'`{ast.unparse(c)[:60]}`: exponent `{ast.unparse(c.args[1])}` instead of `order`: for order = 1 the chart is the identity for every theta', m, c)
+    for lp in loops:
+        n += 1
+        a = ast.unparse(lp.iter.args[0]).replace(' ', '') if len(lp.iter.args) == 1 else None
+        if a in ('order-1', '(order-1)'):
+            rep.ok('W10', fi.qual, f'`for _ in {ast.unparse(lp.iter)}` after ret = C', m, lp)
+        else:
+            rep.violation('W10', fi.qual, f'`for .. in {ast.unparse(lp.iter)}`: the number of further multiplications is not order - 1', m, lp)
+    if n == 0:
+        rep.undecided('W10', fi.qual, 'neither matrix_power nor the multiplication loop found', m, fi.node, text='cayley power')
+    # W11 over the manifold maps
+    n11 = 0
+    for f2 in proj.iter_functions():
+        if not f2.module.name.startswith('numqi.manifold'):
+            continue
+        tri = {}
+        for c in ast.walk(f2.node):
+            if isinstance(c, ast.Call) and ast.unparse(c.func).split('.')[-1] in ('triu', 'tril') and c.args and isinstance(c.args[0], ast.Name):
+                kind = ast.unparse(c.func).split('.')[-1]
+                k = c.args[1] if len(c.args) >= 2 else next((kw.value for kw in c.keywords if kw.arg in ('k', 'diagonal')), None)
+                try:
+                    kv = 0 if k is None else int(ast.literal_eval(k))
+                except Exception:
+                    continue
+                backend = ast.unparse(c.func).split('.')[0]
+                tri.setdefault((c.args[0].id, backend), {}).setdefault(kind, []).append((kv, c))
+        for (nm, be), d in tri.items():
+            if 'triu' in d and 'tril' in d:
+                for a, ca in d['triu']:
+                    n11 += 1
+                    b = max(x for x, _ in d['tril'])
+                    if a <= b + 1:
+                        rep.ok('W11', f2.qual, f'`{ast.unparse(ca)}` with tril(.., {b}) covers every entry', f2.module, ca)
+                    else:
+                        rep.violation('W11', f2.qual, f'`{ast.unparse(ca)}` with `tril({nm}, {b})`: the diagonals {b + 1}..{a - 1} of `{nm}` belong to neither part: those parameters '
+                                      f'never reach the output', f2.module, ca)
+    rep.count('W10.power_sites', n)
+    rep.count('W11.triangular_splits', n11)
+    return n, n11
+
+
+def hm5(proj, rep, modules=('numqi.entangle',)):
+    from .hermitian import _base_of
+    rep.rule('HM5', RULE_HM5)
+    n = 0
+    STATE = {'rho', 'dm', 'rhoAB', 'dm0', 'rho0', 'dm_target', 'rho_list', 'dm_list'}
+    for fi in proj.iter_functions():
+        m = fi.module
+        if not _in_scope(m, list(modules)):
+            continue
+        sp = STATE & set(fi.all_params)
+        if not sp:
+            continue
+        n += 1
+        rep.touch(m)
+        bad = None
+        for b in ast.walk(fi.node):
+            if isinstance(b, ast.BinOp) and isinstance(b.op, (ast.Add, ast.Sub)):
+                ln, lt, lc = _base_of(b.left)
+                rn, rt, rc = _base_of(b.right)
+                if ln is not None and ln == rn and ln in sp and lt != rt and lc == rc and not isinstance(_stmt(b), ast.Assert):
+                    bad = b
+        if bad is not None:
+            rep.violation('HM5', fi.qual, f'`{ast.unparse(bad)[:60]}` combines the state with its bare transpose: this is Re / Im of the state, not its Hermitian part', m, bad)
+        else:
+            rep.ok('HM5', fi.qual, 'state argument never combined with its bare transpose', m, fi.node, text=f'{fi.qual} hermitisation')
+    rep.count('HM5.functions_with_state_arguments', n)
     return n
